@@ -142,7 +142,7 @@ fn small_coding(sizes: &[usize], style: usize, ext: bool, last_ext: bool, traile
     Coding {
         chunks: sizes
             .iter()
-            .map(|s| ChunkSpec { len: *s, upper: style == 1, lead_zeros: (style == 2) as usize, ext: if ext { b";x=1".to_vec() } else { vec![] } })
+            .map(|s| ChunkSpec { len: *s, upper: style == 1, lead_zeros: (style == 2) as usize, ext: if ext { if style == 1 { b";x=\xe9".to_vec() } else { b";x=1".to_vec() } } else { vec![] } })
             .collect(),
         last_ext: if last_ext { b";l".to_vec() } else { vec![] },
         last_zeros: (style == 2) as usize,
@@ -445,11 +445,13 @@ fn exec_random(t: &mut Tape, st: &mut Stats) -> Result<(), String> {
             _ => t.range(2_000, 70_000),
         };
         total += len;
-        let ext: Vec<u8> = match t.weighted(&[4, 1, 1, 1]) {
+        let ext: Vec<u8> = match t.weighted(&[4, 1, 1, 1, 1]) {
             0 => vec![],
             1 => b";a=b".to_vec(),
             2 => b" ;  q".to_vec(),
-            _ => b";\"x y\"".to_vec(),
+            3 => b";\"x y\"".to_vec(),
+            // quoted-string with obs-text (legal: RFC 9110 5.6.4)
+            _ => b";t=\"caf\xe9 \xff\"".to_vec(),
         };
         let digits = format!("{:x}", len).len();
         let lead_zeros = if t.chance(20) { t.range(1, 3) } else if t.chance(8) { 20 } else { 0 };
@@ -547,8 +549,8 @@ modes, API alternating. enumeration 'pairs': every coding of the full small-scop
 {1,2,3,15,16,255,256,4095,4096}; quick: <= 1 chunk of those sizes plus 2 chunks of sizes up to 256) x all single cuts at the \
 structural positions (around every CR, LF, ';', chunk boundary, end, into the next message) x all 27 modes, and all double cuts \
 x 3 of the 27 modes rotating with the pair index. enumeration 'limit': size lines of 17..20 bytes (the decoder's limit is 20) made of zero padding or long extensions, 1..2 chunks, \
-every single cut in and around the size lines x all modes. random: 0..30 chunks up to 70000 bytes, extensions with spaces and \
-quotes, leading zeros, trailers, random cut sets incl. byte-by-byte stretches, random output cycles. Every run is followed by further bytes \
+every single cut in and around the size lines x all modes. random: 0..30 chunks up to 70000 bytes, extensions with spaces, \
+quotes and obs-text, leading zeros, trailers, random cut sets incl. byte-by-byte stretches, random output cycles. Every run is followed by further bytes \
 (a next response, a stray CRLF and a response, chunk-looking bytes, bare CRLFs - rotating) that must stay untouched. Oracle per read: counts in range, output == next payload bytes, no read across two chunks while stop is \
 on, consumed never beyond the coding, is_on_chunk_boundary() <=> offset is a chunk boundary, ended <=> final CRLF consumed, \
 no stall once everything arrived, (0,0) after the end. non-trivial = every (coding, cut set, modes) run of the enumerations \
